@@ -240,6 +240,19 @@ fn main() {
         v.extend((-lim..=lim).map(|z: i64| Some(Value::from(z))));
         v
     };
+    // the same space over strings (characters of 1-4 bytes), empty string included: strings take their
+    // own path through Value::slice
+    let str_exh: Vec<Value> = ["", "é", "é日", "aé😀", "日a😀éz", "😀日éaz語"].iter().map(|s| Value::from(*s)).collect();
+    for len in 0..=max_len_exh {
+        let recv = &str_exh[len.min(str_exh.len() - 1)];
+        for a in &small_exh {
+            for b in &small_exh {
+                for c in &small_exh {
+                    push_slice(&mut slice, &mut meta, &tera, false, recv, Operand { val: a.clone() }, Operand { val: b.clone() }, Operand { val: c.clone() });
+                }
+            }
+        }
+    }
     for len in 0..=max_len_exh {
         let recv = &recvs[len];
         for a in &small_exh {
